@@ -151,6 +151,9 @@ func (ex *Exec) mapValue(st *State, mi mapInfo, m, k Term) Val {
 	cs := leafComps(mi.vt)
 	ts := make([]Term, len(cs))
 	for i, c := range cs {
+		if isRefComp(mi.vt, c) {
+			ex.markRef(mi.key + "#val" + c.Suffix)
+		}
 		h := ex.heap(st, mi.key+"#val"+c.Suffix, ArrSort(mapArr(mi.ks, c.Sort)))
 		ts[i] = Select(Select(h, m), k)
 	}
@@ -199,6 +202,9 @@ func (ex *Exec) mapStore(st *State, mi mapInfo, m, k Term, v Val) {
 	ts := flatten(ex.coerce(v, mi.vt))
 	for i, c := range cs {
 		name := mi.key + "#val" + c.Suffix
+		if isRefComp(mi.vt, c) {
+			ex.markRef(name)
+		}
 		h := ex.heap(st, name, ArrSort(mapArr(mi.ks, c.Sort)))
 		st.Heaps[name] = Store(h, m, Store(Select(h, m), k, ts[i]))
 		ex.recordWrite(name, LHeap1, m, h.Sort)
